@@ -30,6 +30,7 @@ type conn struct {
 	c       net.Conn
 	proto   ProtocolInfo
 	open    bool
+	closed  bool
 	options map[string]interface{}
 	maxrx   int
 	sync.Mutex
@@ -93,11 +94,14 @@ func (p *conn) Send(msg *Message) error {
 func (p *conn) Close() error {
 	p.Lock()
 	defer p.Unlock()
-	if p.open {
-		p.open = false
-		return p.c.Close()
+	if p.closed {
+		return nil
 	}
-	return nil
+	// Close the connection even if the handshake has not completed, so
+	// that a handshake in progress is interrupted and nothing leaks.
+	p.closed = true
+	p.open = false
+	return p.c.Close()
 }
 
 func (p *conn) GetOption(n string) (interface{}, error) {
@@ -191,7 +195,9 @@ func (p *conn) handshake() error {
 		_ = p.c.Close()
 		return mangos.ErrBadProto
 	}
+	p.Lock()
 	p.open = true
+	p.Unlock()
 	return nil
 }
 
